@@ -26,12 +26,13 @@ Step ==
      IF ev.op = "reset"
      THEN /\ g' = GhostInit(ev.cfg)
           /\ UNCHANGED <<bad, cnt>>
-     ELSE LET g2 == GhostNext(g, ev)
-              v == Violated(g, ev, g2)
-              x == Exercised(g, ev, g2)
-          IN /\ g' = g2
-             /\ bad' = IF v # {} /\ Len(bad) < 300 THEN Append(bad, [l |-> l, sid |-> ev.sid, i |-> ev.i, ids |-> v]) ELSE bad
-             /\ cnt' = [c \in ClauseIds |-> IF c \in x THEN cnt[c] + 1 ELSE cnt[c]]
+     ELSE \E g2 \in {GhostNext(g, ev)} :        \* bound once: TLC re-evaluates LET definitions at every use
+          \E x \in {Exercised(g, ev, g2)} :
+            LET v == {c.id : c \in {y \in x : ~y.ok}}
+                xi == {c.id : c \in x}
+            IN /\ g' = g2
+               /\ bad' = IF v # {} /\ Len(bad) < 300 THEN Append(bad, [l |-> l, sid |-> ev.sid, i |-> ev.i, ids |-> v, tags |-> Tags(g2)]) ELSE bad
+               /\ cnt' = [c \in ClauseIds |-> IF c \in xi THEN cnt[c] + 1 ELSE cnt[c]]
   /\ l' = l + 1
 
 Finish ==
